@@ -8,24 +8,29 @@ CONFIG = {
     "level": "proof",
     "trusted_base": [
         KERNEL,
-        TRANSLATOR + " (MapRangeGen.v by go/types: every `range` over a map, maps.Keys/Values, protoreflect Message.Range / Map.Range and proto.RangeExtensions in j5convert, protobuild, protoprint, optionreflect, sourcewalk; SetExtGen.v for the extension indexes and the options message each extension is set on)",
+        TRANSLATOR + " (MapRangeGen.v by go/types: `range` over a map, maps.Keys/Values, protoreflect Message.Range / Map.Range and proto.RangeExtensions in FIVE packages: j5convert, protobuild, protoprint, optionreflect, sourcewalk. Not scanned: j5parse, internal/bcl/**, lib/j5reflect, lib/j5schema; not detected: reflect MapKeys/MapRange, sync.Map, goroutines, time/rand, package-level mutable state. SetExtGen.v for the extension indexes and the options message each extension is set on)",
         CORR, HARNESS,
-        "modelled, not verified: Go's sort.Strings / sort.Sort / slices.SortFunc are represented by 'some sorted permutation of the input' (the theorems hold for every such result, any_sort_is_isort); protobuf-go's Range over extension fields and map entries is an arbitrary permutation; the conversion and link of one file are a parameter of the loading skeleton (a function of the file, the package's exports and its direct dependencies' exports)",
-        "not modelled: goroutine-level nondeterminism (none on this path), the layout decisions of the printer beyond ordering (C05), protocompile internals",
+        "ASSUMED by typing: the conversion + link + print of ONE file is an opaque function `convert : env -> srcfile -> D` of the file, the package's exports and its direct dependencies' exports; its own determinism (sourcewalk, j5convert builders, protocompile link, the printer's layout and element order) is not proved here",
+        "modelled, not verified: Go's sort.Strings / sort.Sort / slices.SortFunc / sort.Slice are 'some sorted permutation of the input' (theorems hold for every such result when keys are distinct: any_sort_is_isort); Go maps are sorted association lists; protobuf-go's Range over extension fields and map entries is an arbitrary permutation",
     ],
     "assumptions": [
-        "model/CmpbOrder.v is the hand-written order-parameterised model of ensureImport, includeIO, loadPackage/resolveDependencies/CompilePackage on a PackageSet, OptionsFor, optionsFor and walkOptionMap; the list of unordered iterations it accounts for equals the regenerated MapRangeGen.v (order_sites_agree), each classified as modelled (with its irrelevance lemma), insensitive (loop body commutes or runs at most once) or not observed (lint reports, error texts, a dead log line)",
-        "valid bundle (the property's quantifier): within a package no type is exported twice and no file name repeats",
-        "the order parameters are arbitrary permutations of what they are given (every listing order, every map iteration order)",
-        "totality (C14_compile_total_deterministic) assumes what a valid bundle provides: every dependency is in the bundle, the dependency relation is acyclic (a rank function), and the model's fuel exceeds the rank; the Go code has no fuel",
+        "model/CmpbOrder.v is the hand-written order-parameterised model of ensureImport, includeIO, loadPackage/resolveDependencies and the file-name sort of CompilePackage on a PackageSet (Packages cache), OptionsFor, optionsFor and walkOptionMap",
+        "valid bundle (the property's quantifier): within a package no type is exported twice and no source file name repeats; dependencies are present and acyclic (a rank function) for the total form; the model's fuel exceeds the rank (the Go code has no fuel)",
+        "the order parameters are arbitrary permutations of what they are given (every file listing order, every map iteration order); the package listing order is not a parameter (ListPackages only feeds a prefix list and a set)",
+        "one source file yields one output in the model; in Go a .j5s yields up to three descriptors (main, service, topic) keyed by name",
     ],
     "mult_search": 3,
     "refuted": [],
-    "partial": [],
+    "partial": [
+        "C14_full is the property over the order SKELETON only: determinism of converting, linking and printing a single file is assumed (`convert` opaque); the link phase of CompilePackage (resolveAll, per-call Symbols, the cross-call SearchResult.Linked cache) is not modelled; the printer's element order (sort.Sort(elements)) and import print order have no theorem",
+        "of the 12 unordered iterations found by the translator, 5 are order parameters with a permutation-invariance theorem, 3 are classified 'insensitive' and 4 'not observed' by a review note (prose), not by a lemma; C14_order_sites_agree only checks that the classified list equals the generated one as a set",
+        "process-level state (package-level caches) is outside the model: only the peer-process oracle looks for it",
+        "the correspondence checks observed ORDERS (Dependency list, output file order, printed option order, map-entry order) against ensure_all / sort_names / options_for / field_options / map_entries; the loading skeleton behind C14_compile_total_deterministic (load, compile_package, include_io) is not compared with the Go PackageSet",
+    ],
 }
 
 MANIFEST = {
-    "text": "Theorems over an order-parameterised Gallina model of the compile and print path, for all permutations of every order parameter: the files CompilePackage returns (names, order, content) do not depend on the file listing order, on the iteration order of the dependency map or of the package's file map, on fuel, or on what was compiled earlier on the PackageSet (cache transparency by an invariant on the cache); a generated file's import list is a function of the set of files passed to ensureImport; the exports map is independent of iteration order; printed option order is independent of protobuf's Range order (total order: source line, extension index, full name - the repaired finding 28; the index-only order used before is shown order-dependent by a witness); field options (re-sorted by name) and map-valued options (sorted by key since the fix) are independent of Range order. The list of unordered iterations in the Go code is regenerated with go/types on every run and must equal the model's classified site list. The tie compiles and prints each generated multi-file, multi-package bundle 8x (quick) / 64x (thorough) in-process with shuffled listings, fresh vs reused sets and shuffled call orders, comparing deterministic-marshal bytes and printed text, prints every resulting file, a hand-built descriptor with index-tied extensions and a bundle with a hand-written .proto source 56x / 160x, and checks observed import lists, file orders, printed option orders and map-entry orders against the model.",
-    "note": "Proved for the order skeleton; conversion and link of a single file are parameters (functions). Trusted: Coq kernel; the go/types translator; the harness; Go's sort functions as 'a sorted permutation'. All C14 theorems are closed under the global context (no axioms).",
-    "technique": "Rocq/Coq proof (permutation invariance via uniqueness of strictly sorted lists and extensionality of sorted association lists; cache invariant by induction on fuel) + regenerated map-iteration site list with a computed agreement lemma + repeated shuffled in-process compilation with byte comparison + in-Coq correspondence of observed orders",
+    "text": "PARTIAL. Proved, over an order-parameterised Gallina skeleton of package loading and of the ordering steps of printing, for all permutations of every order parameter: on a valid bundle with acyclic present dependencies, CompilePackage's file list (names and order; contents as returned by an opaque per-file function `convert`) does not depend on the file listing order, on the iteration order of the dependency map or of the package's file map, on fuel, or on what was loaded earlier into the PackageSet's Packages cache (invariant on the cache, induction on fuel; total form under a rank on dependencies); a generated file's import list is a function of the set of files passed to ensureImport; the exports map is independent of iteration order; the order of printed options is independent of protobuf's Range order (total order: source line, extension index, full name - the repaired finding 28; the index-only order used before is shown order-dependent by a witness); field options (re-sorted by name) and map-valued options (sorted by key since the fix) likewise. ASSUMED, not proved: that converting, linking and printing one file is a function (it is a parameter of the skeleton). NOT modelled: the link phase and its cross-call cache, the printer's element order, process-level state. The list of unordered iterations in five packages is regenerated with go/types on every run and must equal the model's classified site list as a set; 7 of the 12 classifications are review notes, not lemmas. The tie compiles and prints each generated multi-file, multi-package bundle 8x (quick) / 64x (thorough) in-process with shuffled listings, fresh vs reused sets and shuffled call orders, comparing deterministic-marshal bytes and printed text; compares against a fresh peer process that compiles with reversed listings first; prints every resulting file, a hand-built descriptor with index-tied extensions and a bundle with a hand-written .proto source 56x / 160x; and checks observed import lists, file orders, printed option orders and map-entry orders against the model.",
+    "note": "Proved for the order skeleton; the per-file compiler/printer is an assumed-deterministic parameter and the link cache is unmodelled (see partial), so the headline determinism of descriptors and printed text rests on the repeated-compilation oracle for those parts. Trusted: Coq kernel; the go/types translator (five packages, five syntactic kinds); the harness; Go's sort functions as 'a sorted permutation'. All C14 theorems are closed under the global context (no axioms).",
+    "technique": "Rocq/Coq proof (permutation invariance via uniqueness of strictly sorted lists and extensionality of sorted association lists; cache invariant and totality by induction on fuel) + regenerated map-iteration site list with a computed set-agreement lemma + repeated shuffled in-process compilation, peer-process comparison and repeated printing with byte comparison (exploration) + in-Coq correspondence of observed orders",
 }
